@@ -28,6 +28,7 @@ MAXS = DOC_MAX_SUPPLY
 def _(c):
     c.params(unspent_transactions=MAP(CLS('OutputReference'), CLS('Output')))
     c.summary("tx_fee")
+    c.predicate("tx_fee_ok", ["transaction", "unspent_transactions"])
     c.ensures("result == sum(unspent_transactions[i.output_reference].value for i in transaction.inputs)"
               " - sum(o.value for o in transaction.outputs)",
               "all(i.output_reference in unspent_transactions for i in transaction.inputs)")
@@ -39,6 +40,7 @@ def _(c):
 def _(c):
     c.params(unspent_transaction_outs=MAP(CLS('OutputReference'), CLS('Output')))
     c.summary("block_fees")
+    c.predicate("block_fees_ok", ["non_coinbase_transactions", "unspent_transaction_outs"])
     c.ensures("result == sum(get_transaction_fee(t, unspent_transaction_outs) for t in non_coinbase_transactions)",
               "all(all(i.output_reference in unspent_transaction_outs for i in t.inputs) for t in non_coinbase_transactions)")
     c.raises_only_if("not all(all(i.output_reference in unspent_transaction_outs for i in t.inputs) for t in non_coinbase_transactions)")
@@ -84,7 +86,7 @@ def _(c):
 @CS.contract("skepticoin.consensus.validate_signature_for_spend", props=["C01"])
 def _(c):
     c.ensures("G.spend_verifies(input, previous_output, transaction)")
-    c.raises_only_if("not G.spend_verifies(input, previous_output, transaction)")
+    # one-sided: it also raises when the signable form cannot be encoded (a field outside its wire range)
 
 
 IN_STATE = [
@@ -99,8 +101,7 @@ def _(c):
     c.let(U="coinstate.unspent_transaction_outs_by_hash[at_hash]")
     c.predicate("tx_in_state", ["transaction", "at_hash", "coinstate"])
     c.ensures("at_hash in coinstate.unspent_transaction_outs_by_hash", *IN_STATE)
-    c.raises_only_if("not (at_hash in coinstate.unspent_transaction_outs_by_hash and "
-                     + " and ".join("(%s)" % x for x in IN_STATE) + ")")
+    # one-sided ("accepted only if"); the other direction is carried by the predicate tx_in_state where callers need it
     c.loop(0).invariant(
         "total_input_value == sum(U[inp.output_reference].value for inp in transaction.inputs[:i])",
         "all(inp.output_reference in U for inp in transaction.inputs[:i])",
@@ -233,6 +234,7 @@ def _(c):
         "G.header_ok(block.header, current_timestamp)",
         "len(txs) >= 1",
         "len(block.serialize()) <= MAX_BLOCK_SIZE",
+        "G.encodable(block)",
         # the reward transaction has the reward shape and states the block's own height
         "G.coinbase_by_itself(txs[0])",
         "txs[0].inputs[0].signature.height == block.header.summary.height",
